@@ -26,7 +26,7 @@ CLAIMED = {
     technique="TLA+ parametric scheme checked for all pairs at reduced width by TLC; TLC validation of recorded full-width vectors"),
  "C13": dict(
     category="model_checking",
-    text="TLC checks the BufferPool specification (buffer_pool_manager.go, one action per critical section, victim choice abstracted) exhaustively for 1 and 2 frames x 3 page ids x 3 versions (thorough: 3 frames depth-bounded) for Coherent, PinSafe, FreshId, ReplacerPinFree, MappedRight, NonResidentOnDisk; the operation labels of every edge of a depth-bounded state graph are performed on a real BufferPoolManager, and random operation sequences run at pool sizes 1,2,3,4,8; TLC judges every recorded step on the recorded projection of the real pool (frames, page table, free list, replacer, reusable ids, disk) plus ghosts (latest version, live ids), and checks that the step is one the mechanism spec allows. Concurrent users: goroutines sharing a pool of (users + 1..3) frames allocate, fetch, stamp, re-read while pinned, flush, unpin and deallocate pages of their own; the merged history (one shared atomic counter) is judged by TLC (BufferPoolHistoryTrace: stale / moved / fresh / lost). The replacement policy itself is spec/ClockReplacer (clock_replacer.go, circular_list.go as coded: circular list, reference bits, the hand as an alias of the list head or the frozen next field of a removed node), model-checked with 4 and 6 frames (a pinned frame is never a victim, none twice, the hand always denotes a list node, Victim answers whenever there is a candidate); every edge of its 4-frame state graph is performed on a real ClockReplacer and random calls run with 4 and 16 frames, answers and sizes judged by TLC (ClockReplacerTrace; a candidate other than the spec's choice is a counted policy deviation, not a violation).",
+    text="TLC checks the BufferPool specification (buffer_pool_manager.go, one action per critical section, victim choice abstracted) exhaustively for 1 and 2 frames x 3 page ids x 3 versions (thorough: 3 frames depth-bounded) for Coherent, PinSafe, FreshId, ReplacerPinFree, MappedRight, NonResidentOnDisk; the operation labels of every edge of a depth-bounded state graph are performed on a real BufferPoolManager, and random operation sequences run at pool sizes 1,2,3,4,8; TLC judges every recorded step on the recorded projection of the real pool (frames, page table, free list, replacer, reusable ids, disk) plus ghosts (latest version, live ids), and checks that the step is one the mechanism spec allows. Concurrent users: goroutines sharing a pool of (users + 1..3) frames allocate, fetch, stamp, re-read while pinned, flush, unpin and deallocate pages of their own; the merged history (one shared atomic counter) is judged by TLC (BufferPoolHistoryTrace: stale / moved / fresh / lost). The replacement policy itself is spec/ClockReplacer (clock_replacer.go, circular_list.go as coded: circular list, reference bits, the hand as an alias of the list head or the frozen next field of a removed node), model-checked with 4 and 6 frames (a pinned frame is never a victim, none twice, the hand always denotes a list node, Victim answers whenever there is a candidate; refinement of ReplacerContract.tla, the set-valued replacer that BufferPool.tla assumes); every edge of its 4-frame state graph is performed on a real ClockReplacer and random calls run with 4 and 16 frames, answers and sizes judged by TLC (ClockReplacerTrace; a candidate other than the spec's choice is a counted policy deviation, not a violation).",
     design_ref="DESIGN.md sections 0.1, 0.7 and 5 C13",
     note="Trusted: TLC, the driver (harness/cmd/vdrive/bpm.go), guarded VerifSnapshot accessor. Users follow the pool's contract. Sequential driver for the mechanism walks; replacement policy abstracted in BufferPool, concrete in ClockReplacer.",
     technique="TLA+ spec + TLC exhaustive check; graph-guided and random operation sequences on the real pool validated by TLC (state projection + invariants + step conformance)"),
